@@ -182,7 +182,27 @@ func fail(res *core.Result, oracle, s string, check func(string) string) {
 
 func process(res *core.Result, inputs []string, distinctByConstruction bool, digestName string) {
 	h := sha256.New()
-	for _, s := range inputs {
+	// a result handed out earlier must survive later calls: the words of an input 1 / 16 calls back are held and must
+	// still concatenate to that input (a reused buffer would be overwritten by the calls in between)
+	type held struct {
+		in    string
+		words []string
+	}
+	var ring [16]held
+	for idx, s := range inputs {
+		if idx >= 16 {
+			for _, back := range []int{1, 16} {
+				hd := ring[(idx-back)%16]
+				if hd.words != nil && strings.Join(hd.words, "") != hd.in {
+					res.Fail("split-result-overwritten", "held result", fmt.Sprintf("the words returned by Split(%q) read %q after %d later call(s): a returned slice was overwritten", hd.in, hd.words, back), hd.in)
+				}
+			}
+			res.Inc("held_split_results_rechecked")
+		}
+		ring[idx%16] = held{}
+		if pk, _, _ := core.Guard(func() { ring[idx%16] = held{s, camelcase.Split(s)} }); pk {
+			ring[idx%16] = held{}
+		}
 		res.Evals++
 		if nontrivial(s) {
 			if distinctByConstruction {
